@@ -1290,15 +1290,21 @@ class Intersection(Operation):
     other_outputs = []
     for op in self._ops[1:]:
       other_outputs.append(op(inputs, global_state=global_state, step=step))
-      for dna in other_outputs[-1]:
-        dna_id = id(dna)
+      # An item counts once per operation, however often it is in its output.
+      for dna_id in set(id(dna) for dna in other_outputs[-1]):
         if dna_id not in id_count:
           id_count[dna_id] = 0
         id_count[dna_id] += 1
 
     candidates = self._ops[0](inputs, global_state=global_state, step=step)
     n = len(self._ops) - 1
-    return [dna for dna in candidates if id_count.get(id(dna), 0) == n]
+    results = []
+    result_ids = set()
+    for dna in candidates:
+      if id_count.get(id(dna), 0) == n and id(dna) not in result_ids:
+        results.append(dna)
+        result_ids.add(id(dna))
+    return results
 
 
 @pg.members([
